@@ -33,7 +33,7 @@ Proof.
     + apply eval_seqS_ext; auto.
     + apply eval_ifS_ext; auto.
     + apply eval_caseS_ext; auto.
-  - destruct (slookup f ft) as [[ps forms]|]; auto.
+  - destruct (slookup f ft) as [[[ps forms] clos]|]; auto.
     rewrite (eval_argsS_ext _ _ IH). destruct (eval_argsS (evalS n ft) en o args) as [[vs|r] o1]; auto.
     destruct (arity_err _ _); auto. apply eval_bodyS_ext; auto.
 Qed.
@@ -124,7 +124,7 @@ Proof.
     + eapply eval_seqS_stable; eauto.
     + eapply eval_ifS_stable; eauto.
     + eapply eval_caseS_stable; eauto.
-  - destruct (slookup f ft) as [[ps forms]|].
+  - destruct (slookup f ft) as [[[ps forms] clos]|].
     + destruct (eval_argsS (evalS n ft) en o args) as [a o1] eqn:EA.
       assert (K : okA a) by (destruct a as [vs|r0]; simpl; auto; inversion E; subst; exact C).
       rewrite (eval_argsS_stable _ _ IH _ _ _ _ _ EA K). destruct a as [vs|r0]; auto.
@@ -357,12 +357,12 @@ Section Exact.
           -- apply (eval_if_ex n IH); auto.
           -- apply (eval_case_ex n IH); auto.
         * pose proof (wrapper_user st id f I B) as W.
-          destruct (slookup f ft) as [[ps forms]|] eqn:FT.
+          destruct (slookup f ft) as [[[ps forms] clos]|] eqn:FT.
           -- (* the name has a definition *)
              pose proof (R f) as D. rewrite FT in D. unfold def_of in D.
              destruct (slookup f (funcs st)) as [s|] eqn:F; [|discriminate].
              destruct (hget st s) as [l|] eqn:H; [|discriminate].
-             destruct (l_place l) eqn:PL; [discriminate|]. inversion D; subst ps forms.
+             destruct (l_place l) eqn:PL; [discriminate|]. inversion D; subst ps forms clos.
              destruct (wrapper st id f) as [[b|g a]|]; [contradiction| |discriminate].
              destruct W as (s' & l' & F' & Ha & Hs). inversion F'; subst s'.
              rewrite H in Hs. inversion Hs; subst l'.
@@ -413,6 +413,57 @@ Qed.
 
 (* ---- histories ------------------------------------------------------------------------------------------ *)
 (* the policies along M's run are `pols_run` (Spec.v) *)
+Lemma gdef_eval_ex : forall late n st ft gv always nm init rS oS gvS, Inv st -> Rel st ft ->
+  (gdef_evaluates gv always nm = true -> Pol st late) ->
+  gdef_evalS (evalL late n ft) gv (out st) always nm init = (rS, oS, gvS) ->
+  exists rM st', gdef_eval (evalM n) st gv always nm init = (rM, st', gvS) /\ ex1 rS oS rM st' /\ good st st'.
+Proof.
+  intros late n st ft gv always nm init rS oS gvS I R HP. unfold gdef_evalS, gdef_eval, gdef_evaluates in *.
+  destruct always.
+  - specialize (HP eq_refl). destruct (premark st init) as [st1|] eqn:PM.
+    + pose proof (premark_good _ _ _ PM) as G1. destruct G1 as [T1 I1]. pose proof (premark_out _ _ _ PM) as O1.
+      rewrite <- O1. destruct (evalL late n ft gv (out st1) init) as [r1 o1] eqn:E1.
+      destruct (evalM_ex late ft n st1 gv init r1 o1 (I1 I) (same_tabs_rel _ _ _ T1 R) (same_tabs_pol _ _ _ T1 HP) E1)
+        as (rM & st2 & EM & [S1 S2]).
+      rewrite EM. pose proof (evalM_good n _ _ _ _ _ EM) as G2.
+      assert (G : good st st2) by (eapply good_trans; [split; [exact T1|exact I1]|exact G2]).
+      destruct r1 as [v|er|].
+      * destruct (S1 eq_refl) as [-> O2]. intros E; inversion E; subst. eexists _, _. split; [reflexivity|].
+        split; [split; [auto|discriminate]|exact G].
+      * intros E; inversion E; subst. pose proof (S2 eq_refl). destruct rM; [discriminate| |];
+          (eexists _, _; split; [reflexivity|]; split; [split; auto|exact G]).
+      * intros E; inversion E; subst. pose proof (S2 eq_refl). destruct rM; [discriminate| |];
+          (eexists _, _; split; [reflexivity|]; split; [split; auto|exact G]).
+    + destruct (premark_none _ _ PM) as (id & g & r & -> & B & F).
+      pose proof (rel_undef _ _ _ R F) as FT. intros E.
+      exists (Err EUndefined), st.
+      destruct n as [|n']; simpl in E.
+      * inversion E; subst. split; [reflexivity|]. split; [split; [discriminate|auto]|apply good_refl].
+      * rewrite B, FT, (HP g) in E. unfold latef in E. rewrite F in E. inversion E; subst.
+        split; [reflexivity|]. split; [split; auto|apply good_refl].
+  - simpl in HP. destruct (slookup (gkey nm) gv).
+    + intros E; inversion E; subst. eexists _, _. split; [reflexivity|]. split; [apply ex1_same|apply good_refl].
+    + specialize (HP eq_refl). destruct (evalL late n ft gv (out st) init) as [r1 o1] eqn:E1.
+      destruct (evalM_ex late ft n st gv init r1 o1 I R HP E1) as (rM & st1 & EM & [S1 S2]).
+      rewrite EM. pose proof (evalM_good n _ _ _ _ _ EM) as G1.
+      destruct r1 as [v|er|].
+      * destruct (S1 eq_refl) as [-> O1]. intros E; inversion E; subst. eexists _, _. split; [reflexivity|].
+        split; [split; [intros _; rewrite apply_def_out; auto|discriminate]|].
+        eapply good_trans; [exact G1|]. apply apply_def_good. apply G1.
+      * intros E; inversion E; subst. pose proof (S2 eq_refl). destruct rM; [discriminate| |];
+          (eexists _, _; split; [reflexivity|]; split; [split; auto|exact G1]).
+      * intros E; inversion E; subst. pose proof (S2 eq_refl). destruct rM; [discriminate| |];
+          (eexists _, _; split; [reflexivity|]; split; [split; auto|exact G1]).
+Qed.
+Lemma pol_gdef_split : forall st gv always nm X,
+  (gdef_evaluates gv always nm = true -> Pol st (pol_hd (pol_gdef st gv always nm ++ X))) /\
+  pols_after_gdef gv always nm (pol_gdef st gv always nm ++ X) = X.
+Proof.
+  intros. unfold pol_gdef, pols_after_gdef. destruct (gdef_evaluates gv always nm); simpl; split; auto.
+  - intros _. apply Pol_latef.
+  - discriminate.
+Qed.
+
 Lemma run_forms_ex : forall n fs st ft gv v rest rS oS ft' gv' pols', Inv st -> Rel st ft ->
   run_formsL n ft gv (out st) fs v (pols_forms n st gv fs ++ rest) = (rS, oS, ft', gv', pols') ->
   exists rM st', run_forms n st gv fs v = (rM, st', gv') /\ ex1 rS oS rM st' /\ Inv st' /\ Rel st' ft' /\ pols' = rest.
@@ -421,14 +472,76 @@ Proof.
   - inversion E; subst. eexists _, _. split; [reflexivity|]. split; [apply ex1_same|auto].
   - destruct t as [e|nm]; [|eapply IH; eauto].
     destruct (parse_defun e) as [[[nm ps] body]|] eqn:PD.
-    + destruct (defunM_step st ft nm ps body I R) as (I' & R' & O'). rewrite <- O' in E. eapply IH; eauto.
-    + destruct (parse_gdef e) as [[[always nm] z]|] eqn:PG; [eapply IH; eauto|].
-      simpl in E.
-      destruct (evalL (latef st) n ft gv (out st) e) as [r1 o1] eqn:E1.
-      destruct (evalM_ex (latef st) ft n st gv e r1 o1 I R (Pol_latef st) E1) as (rM & st1 & EM & [S1 S2]).
-      rewrite EM in *. pose proof (evalM_good n _ _ _ _ _ EM) as [T1 I1].
+    + destruct (defunM_step st ft nm ps body [] I R) as (I' & R' & O'). rewrite <- O' in E. eapply IH; eauto.
+    + destruct (parse_letdefun e) as [[[[clos nm] ps] body]|] eqn:PLD.
+      { destruct (defunM_step st ft nm ps body clos I R) as (I' & R' & O'). rewrite <- O' in E. eapply IH; eauto. }
+      destruct (parse_gdef e) as [[[always nm] init]|] eqn:PG.
+      * rewrite <- app_assoc in E.
+        destruct (gdef_eval (evalM n) st gv always nm init) as [[rM st1] gvM] eqn:EM.
+        match type of E with context [pol_gdef st gv always nm ++ ?X] =>
+          destruct (pol_gdef_split st gv always nm X) as [HP HA]; rewrite HA in E;
+          destruct (gdef_evalS (evalL (pol_hd (pol_gdef st gv always nm ++ X)) n ft) gv (out st) always nm init)
+            as [[r1 o1] gv1] eqn:E1;
+          destruct (gdef_eval_ex _ n st ft gv always nm init r1 o1 gv1 I R HP E1) as (rM' & st1' & EM' & [S1 S2] & [T1 I1])
+        end.
+        rewrite EM in EM'. inversion EM'; subst rM' st1' gvM.
+        destruct r1 as [w|er|].
+        -- destruct (S1 eq_refl) as [-> O1]. rewrite <- O1 in E. eapply IH; eauto. eapply same_tabs_rel; eauto.
+        -- pose proof (S2 eq_refl) as NV. destruct rM as [?|?|]; [discriminate| |]; simpl in E; inversion E; subst;
+             (eexists _, _; split; [reflexivity|]; split; [split; auto|split; [auto|split; [eapply same_tabs_rel; eauto|reflexivity]]]).
+        -- pose proof (S2 eq_refl) as NV. destruct rM as [?|?|]; [discriminate| |]; simpl in E; inversion E; subst;
+             (eexists _, _; split; [reflexivity|]; split; [split; auto|split; [auto|split; [eapply same_tabs_rel; eauto|reflexivity]]]).
+      * simpl in E.
+        destruct (evalL (latef st) n ft gv (out st) e) as [r1 o1] eqn:E1.
+        destruct (evalM_ex (latef st) ft n st gv e r1 o1 I R (Pol_latef st) E1) as (rM & st1 & EM & [S1 S2]).
+        rewrite EM in *. pose proof (evalM_good n _ _ _ _ _ EM) as [T1 I1].
+        destruct r1 as [w|er|].
+        -- destruct (S1 eq_refl) as [-> O1]. rewrite <- O1 in E. eapply IH; eauto. eapply same_tabs_rel; eauto.
+        -- pose proof (S2 eq_refl) as NV. destruct rM as [?|?|]; [discriminate| |]; simpl in E; inversion E; subst;
+             (eexists _, _; split; [reflexivity|]; split; [split; auto|split; [auto|split; [eapply same_tabs_rel; eauto|reflexivity]]]).
+        -- pose proof (S2 eq_refl) as NV. destruct rM as [?|?|]; [discriminate| |]; simpl in E; inversion E; subst;
+             (eexists _, _; split; [reflexivity|]; split; [split; auto|split; [auto|split; [eapply same_tabs_rel; eauto|reflexivity]]]).
+Qed.
+
+Lemma compile_defs_ex : forall n fs st ft gv rest xS oS ft' gv' fs' pols', Inv st -> Rel st ft ->
+  compile_defsL n ft gv (out st) fs (pols_compile n st gv fs ++ rest) = (xS, oS, ft', gv', fs', pols') ->
+  exists xM st', compile_defs n st gv fs = (xM, st', gv', fs') /\ ex1 xS oS xM st' /\ Inv st' /\ Rel st' ft' /\ pols' = rest.
+Proof.
+  intros n. induction fs as [|t r IH]; simpl; intros st ft gv rest xS oS ft' gv' fs' pols' I R E.
+  - inversion E; subst. eexists _, _. split; [reflexivity|]. split; [apply ex1_same|auto].
+  - assert (KEEP : forall t0,
+       (let '(x, o', ft0, gv0, r', p') := compile_defsL n ft gv (out st) r (pols_compile n st gv r ++ rest) in
+        (x, o', ft0, gv0, t0 :: r', p')) = (xS, oS, ft', gv', fs', pols') ->
+       exists xM st', (let '(x, st0, gv0, r') := compile_defs n st gv r in (x, st0, gv0, t0 :: r')) = (xM, st', gv', fs') /\
+                      ex1 xS oS xM st' /\ Inv st' /\ Rel st' ft' /\ pols' = rest).
+    { intros t0 E'.
+      destruct (compile_defsL n ft gv (out st) r (pols_compile n st gv r ++ rest)) as [[[[[x o'] ft0] gv0] r'] p'] eqn:ER.
+      inversion E'; subst. destruct (IH _ _ _ _ _ _ _ _ _ _ I R ER) as (xM & st' & EM & S & I' & R' & PE).
+      rewrite EM. eauto 10. }
+    destruct t as [e|nm]; [|apply KEEP; exact E].
+    destruct (parse_defun e) as [[[nm ps] body]|] eqn:PD.
+    + destruct (defunM_step st ft nm ps body [] I R) as (I' & R' & O'). rewrite <- O' in E.
+      destruct (compile_defsL n ((nm, (ps, body, [])) :: ft) gv (out (defunM st nm ps body [])) r
+                  (pols_compile n (defunM st nm ps body []) gv r ++ rest)) as [[[[[x o'] ft0] gv0] r'] p'] eqn:ER.
+      inversion E; subst. destruct (IH _ _ _ _ _ _ _ _ _ _ I' R' ER) as (xM & st' & EM & S & I'' & R'' & PE).
+      rewrite EM. eauto 10.
+    + destruct (parse_letdefun e) as [[[[clos nm] ps] body]|] eqn:PLD; [apply KEEP; exact E|].
+      destruct (parse_gdef e) as [[[always nm] init]|] eqn:PG; [|apply KEEP; exact E].
+      rewrite <- app_assoc in E.
+      destruct (gdef_eval (evalM n) st gv always nm init) as [[rM st1] gvM] eqn:EM.
+      match type of E with context [pol_gdef st gv always nm ++ ?X] =>
+        destruct (pol_gdef_split st gv always nm X) as [HP HA]; rewrite HA in E;
+        destruct (gdef_evalS (evalL (pol_hd (pol_gdef st gv always nm ++ X)) n ft) gv (out st) always nm init)
+          as [[r1 o1] gv1] eqn:E1;
+        destruct (gdef_eval_ex _ n st ft gv always nm init r1 o1 gv1 I R HP E1) as (rM' & st1' & EM' & [S1 S2] & [T1 I1])
+      end.
+      rewrite EM in EM'. inversion EM'; subst rM' st1' gvM.
       destruct r1 as [w|er|].
-      * destruct (S1 eq_refl) as [-> O1]. rewrite <- O1 in E. eapply IH; eauto. eapply same_tabs_rel; eauto.
+      * destruct (S1 eq_refl) as [-> O1]. rewrite <- O1 in E.
+        destruct (compile_defsL n ft gv1 (out st1) r (pols_compile n st1 gv1 r ++ rest)) as [[[[[x o'] ft0] gv0] r'] p'] eqn:ER.
+        inversion E; subst.
+        destruct (IH _ _ _ _ _ _ _ _ _ _ (I1 I) (same_tabs_rel _ _ _ T1 R) ER) as (xM & st' & EM2 & S & I'' & R'' & PE).
+        rewrite EM2. eauto 10.
       * pose proof (S2 eq_refl) as NV. destruct rM as [?|?|]; [discriminate| |]; simpl in E; inversion E; subst;
           (eexists _, _; split; [reflexivity|]; split; [split; auto|split; [auto|split; [eapply same_tabs_rel; eauto|reflexivity]]]).
       * pose proof (S2 eq_refl) as NV. destruct rM as [?|?|]; [discriminate| |]; simpl in E; inversion E; subst;
@@ -448,15 +561,28 @@ Lemma step_ex : forall n m s o rest s' obS pols', HInv m s ->
   end.
 Proof.
   intros n m s o rest s' obS pols' H E.
-  destruct o as [cid forms|cid|cid].
-  - pose proof (step_sim n m s (OLoad cid forms) H) as [H' OB]. simpl in *. inversion E; subst. auto.
-  - pose proof (step_sim n m s (OCompile cid) H) as [H' OB]. unfold stepL in E.
-    destruct (stepS n s (OCompile cid)) as [s1 ob1] eqn:ES. cbn [fst snd app pols_step] in *. inversion E; subst.
-    assert (ON : obS = None).
-    { simpl in ES. destruct (nlookup cid (scodes s)); [destruct (compile_defsS (sft s) (sgv s) l) as [[? ?] ?]|];
-        inversion ES; reflexivity. }
-    subst obS. split; [exact H'|split; [reflexivity|exact OB]].
-  - destruct H as (I & R & CE & GE). simpl in *. rewrite <- CE, <- GE in E.
+  destruct H as (I & R & CE & GE).
+  destruct o as [cid forms|cid|cid]; simpl in *.
+  - inversion E; subst. simpl. split; [unfold HInv; simpl; split; [auto|split; [auto|split; [congruence|auto]]]|auto].
+  - rewrite <- CE, <- GE in E. destruct (nlookup cid (codes m)) as [fs|].
+    + pose proof (good_set_out (ms m) []) as [T0 I0].
+      destruct (compile_defsL n (sft s) (mgv m) [] fs (pols_compile n (set_out (ms m) []) (mgv m) fs ++ rest))
+        as [[[[[xS oS] ft'] gv'] fs'] pl] eqn:EL.
+      destruct (compile_defs_ex n fs (set_out (ms m) []) (sft s) (mgv m) rest xS oS ft' gv' fs' pl (I0 I)
+                  (same_tabs_rel _ _ _ T0 R) EL) as (xM & st1 & EM & [S1 S2] & I1 & R1 & PE).
+      rewrite EM. inversion E; subst. destruct xM as [w|er|].
+      * destruct (cgood_rel _ _ _ (compile_rest_cgood fs' st1) I1 R1) as [I' R'].
+        pose proof (cg_out _ _ (compile_rest_cgood fs' st1 I1)) as OC.
+        simpl. split; [unfold HInv; simpl; split; [auto|split; [auto|split; [congruence|auto]]]|].
+        split; [reflexivity|]. split; simpl.
+        -- intros B. destruct (S1 B) as [<- <-]. rewrite OC. reflexivity.
+        -- intros NV. destruct xS; [discriminate| |]; specialize (S2 eq_refl); discriminate.
+      * simpl. split; [unfold HInv; simpl; split; [auto|split; [auto|split; [congruence|auto]]]|].
+        split; [reflexivity|]. split; simpl; auto. intros B. destruct (S1 B) as [<- <-]. reflexivity.
+      * simpl. split; [unfold HInv; simpl; split; [auto|split; [auto|split; [congruence|auto]]]|].
+        split; [reflexivity|]. split; simpl; auto. intros B. destruct (S1 B) as [<- <-]. reflexivity.
+    + inversion E; subst. simpl. split; [unfold HInv; auto|auto].
+  - rewrite <- CE, <- GE in E.
     destruct (nlookup cid (codes m)) as [fs|].
     + pose proof (good_set_out (ms m) []) as [T0 I0].
       destruct (run_formsL n (sft s) (mgv m) [] fs VNil (pols_forms n (set_out (ms m) []) (mgv m) fs ++ rest))
@@ -492,15 +618,39 @@ Corollary history_exact_exists : forall n ops, exists pols, Forall2 oex (runL n 
 Proof. intros n ops. exists (pols_run n minit ops). apply history_exact. Qed.
 
 (* with the empty oracle (every lookup before the arguments) runL is runS *)
+Lemma gdef_evalS_ext : forall ev ev', (forall en o e, ev en o e = ev' en o e) ->
+  forall gv o always nm init, gdef_evalS ev gv o always nm init = gdef_evalS ev' gv o always nm init.
+Proof. intros ev ev' H gv o always nm init. unfold gdef_evalS. rewrite !H. reflexivity. Qed.
+Lemma pols_after_nil : forall gv always nm, pols_after_gdef gv always nm [] = [].
+Proof. intros. unfold pols_after_gdef. destruct (gdef_evaluates gv always nm); reflexivity. Qed.
 Lemma run_formsL_early : forall n fs ft gv o v,
   run_formsL n ft gv o fs v [] = (run_formsS n ft gv o fs v, []).
 Proof.
   intros n. induction fs as [|t r IH]; simpl; intros ft gv o v; auto.
   destruct t as [e|nm]; auto.
   destruct (parse_defun e) as [[[nm ps] body]|]; auto.
-  destruct (parse_gdef e) as [[[always nm] z]|]; auto.
-  simpl. change (pol_hd []) with early. rewrite evalL_early.
-  destruct (evalS n ft gv o e) as [[w|er|] o1]; auto.
+  destruct (parse_letdefun e) as [[[[clos nm] ps] body]|]; auto.
+  destruct (parse_gdef e) as [[[always nm] init]|].
+  - change (pol_hd []) with early. rewrite (gdef_evalS_ext _ _ (evalL_early ft n)), pols_after_nil.
+    destruct (gdef_evalS (evalS n ft) gv o always nm init) as [[[w|er|] o1] gv1]; auto.
+  - simpl. change (pol_hd []) with early. rewrite evalL_early.
+    destruct (evalS n ft gv o e) as [[w|er|] o1]; auto.
+Qed.
+Lemma compile_defsL_early : forall n fs ft gv o,
+  compile_defsL n ft gv o fs [] = (compile_defsS n ft gv o fs, []).
+Proof.
+  intros n. induction fs as [|t r IH]; simpl; intros ft gv o; auto.
+  assert (KEEP : forall t0, (let '(x, o', ft', gv', r', p') := compile_defsL n ft gv o r [] in (x, o', ft', gv', t0 :: r', p')) =
+                            (let '(x, o', ft', gv', r') := compile_defsS n ft gv o r in (x, o', ft', gv', t0 :: r'), [])).
+  { intros t0. rewrite IH. destruct (compile_defsS n ft gv o r) as [[[[x o'] ft'] gv'] r']. reflexivity. }
+  destruct t as [e|nm]; [|apply KEEP].
+  destruct (parse_defun e) as [[[nm ps] body]|].
+  - rewrite IH. destruct (compile_defsS n ((nm, (ps, body, [])) :: ft) gv o r) as [[[[x o'] ft'] gv'] r']. reflexivity.
+  - destruct (parse_letdefun e) as [[[[clos nm] ps] body]|]; [apply KEEP|].
+    destruct (parse_gdef e) as [[[always nm] init]|]; [|apply KEEP].
+    change (pol_hd []) with early. rewrite (gdef_evalS_ext _ _ (evalL_early ft n)), pols_after_nil.
+    destruct (gdef_evalS (evalS n ft) gv o always nm init) as [[[w|er|] o1] gv1]; auto.
+    rewrite IH. destruct (compile_defsS n ft gv1 o1 r) as [[[[x o'] ft'] gv'] r']. reflexivity.
 Qed.
 Theorem runL_early : forall n ops s, runL n s ops [] = runS n s ops.
 Proof.
@@ -508,7 +658,8 @@ Proof.
   destruct o as [cid forms|cid|cid]; simpl.
   - apply IH.
   - destruct (nlookup cid (scodes s)) as [fs|]; simpl; [|apply IH].
-    destruct (compile_defsS (sft s) (sgv s) fs) as [[ft' gv'] fs']. simpl. apply IH.
+    rewrite compile_defsL_early. destruct (compile_defsS n (sft s) (sgv s) [] fs) as [[[[x o1] ft'] gv'] fs'].
+    simpl. rewrite IH. reflexivity.
   - destruct (nlookup cid (scodes s)) as [fs|]; simpl; [|apply IH].
     rewrite run_formsL_early. destruct (run_formsS n (sft s) (sgv s) [] fs VNil) as [[[rr o1] ft'] gv'].
     simpl. rewrite IH. reflexivity.
@@ -523,11 +674,11 @@ Definition undef_ops_list (arg : sexp) : list op := [OLoad 0 [SList 1 [SSym "nod
 Example lookup_time_witness :
   let a1 := SList 2 [SSym "emit"; SInt 5] in
   let a2 := SList 2 [SSym "+"; SInt 1; SList 3 [SSym "list"; SInt 2]] in
-  runM 50 minit (undef_ops a1) = [(Err EUndefined, [VInt 5])] /\
-  runL 50 sinit (undef_ops a1) (pols_run 50 minit (undef_ops a1)) = [(Err EUndefined, [VInt 5])] /\
+  runM 50 minit (undef_ops a1) = [(Val VNil, []); (Err EUndefined, [VInt 5])] /\
+  runL 50 sinit (undef_ops a1) (pols_run 50 minit (undef_ops a1)) = [(Val VNil, []); (Err EUndefined, [VInt 5])] /\
   runM 50 minit (undef_ops_list a1) = [(Err EUndefined, [])] /\
   runL 50 sinit (undef_ops_list a1) (pols_run 50 minit (undef_ops_list a1)) = [(Err EUndefined, [])] /\
-  runM 50 minit (undef_ops a2) = [(Err EType, [])] /\
-  runL 50 sinit (undef_ops a2) (pols_run 50 minit (undef_ops a2)) = [(Err EType, [])] /\
-  runS 50 sinit (undef_ops a1) = [(Err EUndefined, [])] /\ runS 50 sinit (undef_ops a2) = [(Err EUndefined, [])].
+  runM 50 minit (undef_ops a2) = [(Val VNil, []); (Err EType, [])] /\
+  runL 50 sinit (undef_ops a2) (pols_run 50 minit (undef_ops a2)) = [(Val VNil, []); (Err EType, [])] /\
+  runS 50 sinit (undef_ops a1) = [(Val VNil, []); (Err EUndefined, [])] /\ runS 50 sinit (undef_ops a2) = [(Val VNil, []); (Err EUndefined, [])].
 Proof. vm_compute. auto 10. Qed.
